@@ -22,9 +22,9 @@ META = {
         'rewritten by aesthetics(); the no-good-pixel exit returns the zero-initialised arrays; C11.PER-EXPOSURE - the output '
         'pixels that receive inverse variance from exposure j are those between that exposure\'s own minimum and maximum '
         'wavelength; C11.SCALE-FREE - no decision inside combine1fiber compares a flux-scaled quantity with an absolute tolerance or identifies two grids by a tolerance test, and the inverse-variance interpolation runs for every overlapping exposure; C11.ZSHIFT - in preprocess_spectra the wavelength argument of combine1fiber is rowloglam - logshift[iobj] '
-        'with logshift = log10(1 + zfit), computed afresh for every object (no in-place accumulation). C11.SCALE-FREE also: no inverse-variance-scaled quantity is compared with an absolute tolerance, and the rejection fit never receives synthetic unit weights when objivar is None; C11.BMASK-KIND - `~bmask` is reached only by the boolean mask of a fit (float masks of unfitted groups are excluded through the correlated fact sset is None). NOT decided: ivar >= 0, '
+        'with logshift = log10(1 + zfit), computed afresh for every object (no in-place accumulation). C11.SCALE-FREE also: no inverse-variance-scaled quantity is compared with an absolute tolerance, and the rejection fit never receives synthetic unit weights when objivar is None; C11.BMASK-KIND - `~bmask` is reached only by the boolean mask of a fit (float masks of unfitted groups are excluded through the correlated fact sset is None). C11.INTERP-AXES - every np.interp of combine1fiber takes output log-wavelengths as points and input log-wavelengths as abscissae; NOT decided: ivar >= 0, '
         'exact zeros outside good neighbours, identity on the same grid, scaling laws, interpolation bound (numerical).'),
-    'floors': {'C11.BMASK-KIND': 1, 'C11.DTYPE-MIX': 5, 'C11.EMPTY-AGG': 6, 'C11.SCRUB': 4, 'C11.PER-EXPOSURE': 1, 'C11.ZSHIFT': 2, 'C11.SCALE-FREE': 4, 'C11.NONE-DEREF': 1},
+    'floors': {'C11.INTERP-AXES': 2, 'C11.BMASK-KIND': 1, 'C11.DTYPE-MIX': 5, 'C11.EMPTY-AGG': 6, 'C11.SCRUB': 4, 'C11.PER-EXPOSURE': 1, 'C11.ZSHIFT': 2, 'C11.SCALE-FREE': 4, 'C11.NONE-DEREF': 1},
     'trusted_base': ['NumPy 2 (NEP 50): a signed integer array and a numpy.uint64 scalar have no common integer type for bitwise ufuncs'],
 }
 
@@ -499,7 +499,42 @@ def check_none_deref(ctx, repo):
               construct='objivar may be None at: %s' % '; '.join('%s `%s`' % (k, src(n)[:30]) for n, k, l in real[:3]))
 
 
+def check_interp_axes(ctx, repo):
+    """C11.INTERP-AXES: inside combine1fiber every np.interp works in log-wavelength: the points are elements of the output grid
+    (newloglam) and the abscissae elements of the input grid (inloglam).  Interpolating in pixel units instead assumes a constant
+    log-wavelength step of the input, which the function does not require."""
+    f = repo.func(SPEC2D, 'combine1fiber')
+    fa = FA(f)
+    inl, newl = f.params[0], f.params[2]
+
+    def derives(e, name, depth=0):
+        """e is a selection / re-ordering of the array `name` (no arithmetic)."""
+        if depth > 5:
+            return False
+        if isinstance(e, ast.Name):
+            if e.id == name and any(isinstance(d, ast.arg) for d, _ in fa.defs(e)):
+                return True
+            vs = [v for d, v in fa.defs(e) if v is not None]
+            return bool(vs) and all(derives(v, name, depth + 1) for v in vs)
+        if isinstance(e, ast.Subscript):
+            return derives(e.value, name, depth + 1)
+        if isinstance(e, ast.Call) and call_name(e) in ('ravel', 'flatten', 'copy', 'asarray', 'array', 'reshape', 'astype') :
+            inner = e.func.value if isinstance(e.func, ast.Attribute) and not (isinstance(e.func.value, ast.Name) and e.func.value.id in ('np', 'numpy')) \
+                else (e.args[0] if e.args else None)
+            return inner is not None and derives(inner, name, depth + 1)
+        return False
+    calls = [c for c in walk_local(f.node) if isinstance(c, ast.Call) and call_name(c) == 'interp' and len(c.args) >= 3]
+    ctx.need(len(calls) >= 2, 'combine1fiber: np.interp calls not found')
+    for c in calls:
+        ok = derives(c.args[0], newl) and derives(c.args[1], inl)
+        ctx.check('C11.INTERP-AXES', ok, f, c, 'np.interp(%s, %s, ...) interpolates in log-wavelength (output grid points, input grid abscissae)' % (src(c.args[0])[:30], src(c.args[1])[:30]),
+                  msg='combine1fiber interpolates with `np.interp(%s, %s, ...)`: the abscissae are not the input log-wavelengths themselves (and the points the '
+                      'output ones), so the result is right only for an input grid with a constant step' % (src(c.args[0])[:40], src(c.args[1])[:40]),
+                  construct='interp axes ' + src(c)[:60])
+
+
 def run(ctx):
+    check_interp_axes(ctx, ctx.repo)
     check_none_deref(ctx, ctx.repo)
     check_scale_free(ctx, ctx.repo)
     check_ivar_thresholds(ctx, ctx.repo)
